@@ -143,6 +143,11 @@ type Case struct {
 	Obs    []Obs  `json:"obs,omitempty"`
 	Obs2   []Obs  `json:"obs2,omitempty"`
 	Draws  []Draw `json:"draws,omitempty"`
+	Late   *Val   `json:"late,omitempty"` // queue family: UpdateQueue.Add(Late) after LateAt Next calls
+	LateAt int    `json:"late_at,omitempty"`
+	Delay  bool   `json:"delay,omitempty"` // delay / enable_delay on (timestamps are nanoseconds apart)
+	Conc   bool   `json:"conc,omitempty"`  // queue family: also drained by four goroutines at once
+	Tgt    bool   `json:"tgt,omitempty"`   // fixed family: every other generator subscribes with a prefix target
 	Poll   bool   `json:"poll,omitempty"`  // client family in POLL mode: two passes from one Client/config
 	Fixed  []Obs  `json:"fixed,omitempty"` // family fixed: backing array of configured responses
 	Ks     []int  `json:"ks,omitempty"`    // family fixed: prefix length of each generator, in order
@@ -331,16 +336,17 @@ func projVal(o *Obs, v *fpb.Value) {
 	}
 }
 
-// runQueue does what fake/gnmi/client.go reset does, with the queue API, and
-// calls Next up to steps times.
-func runQueue(c Case, vals []*fpb.Value) (out []Obs) {
-	defer func() {
-		if r := recover(); r != nil {
-			out = append(out, Obs{Kind: "end", End: "panic", Msg: fmt.Sprint(r)})
-		}
-	}()
-	n := len(c.Ops)
-	q := queue.New(false, c.Seed, vals)
+func emitObs(v *fpb.Value, n int) Obs {
+	o := Obs{Kind: "emit", ID: idOf(v.Path, n), Rep: v.Repeat}
+	if v.Timestamp != nil {
+		o.TS = v.Timestamp.Timestamp
+	}
+	projVal(&o, v)
+	return o
+}
+
+func newQueue(c Case, vals []*fpb.Value) *queue.UpdateQueue {
+	q := queue.New(c.Delay, c.Seed, vals)
 	if !c.NoSync {
 		q.Add(&fpb.Value{
 			Timestamp: &fpb.Timestamp{Timestamp: q.Latest()},
@@ -348,28 +354,101 @@ func runQueue(c Case, vals []*fpb.Value) (out []Obs) {
 			Value:     &fpb.Value_Sync{Sync: uint64(1)},
 		})
 	}
+	return q
+}
+
+// runQueue does what fake/gnmi/client.go reset does, with the queue API, and
+// calls Next up to steps times (with one Add in between if the case has a late
+// value); then Latest(); after an exhausted queue two more Next calls must
+// still say "exhausted".
+func runQueue(c Case, vals []*fpb.Value) (out []Obs) {
+	var q *queue.UpdateQueue
+	end := Obs{}
+	defer func() {
+		if r := recover(); r != nil {
+			end = Obs{Kind: "end", End: "panic", Msg: fmt.Sprint(r)}
+		}
+		if q != nil {
+			out = append(out, Obs{Kind: "latest", TS: q.Latest()})
+		}
+		if end.Kind != "" {
+			out = append(out, end)
+		}
+	}()
+	n := len(c.Ops)
+	q = newQueue(c, vals)
 	for i := 0; i < c.Steps; i++ {
+		if c.Late != nil && i == c.LateAt {
+			q.Add(build(n+1, *c.Late))
+		}
 		x, err := q.Next()
 		if err != nil {
-			out = append(out, Obs{Kind: "end", End: "err", Msg: "error"})
+			end = Obs{Kind: "end", End: "err", Msg: "error"}
 			return out
 		}
 		if x == nil {
-			out = append(out, Obs{Kind: "end", End: "done"})
+			end = Obs{Kind: "end", End: "done"}
+			for k := 0; k < 2; k++ {
+				if y, err2 := q.Next(); y != nil || err2 != nil {
+					end = Obs{Kind: "end", End: "panic", Msg: "Next returned something after the queue was exhausted"}
+				}
+			}
 			return out
 		}
 		v, ok := x.(*fpb.Value)
 		if !ok || v == nil {
-			out = append(out, Obs{Kind: "end", End: "panic", Msg: fmt.Sprintf("Next returned %T", x)})
+			end = Obs{Kind: "end", End: "panic", Msg: fmt.Sprintf("Next returned %T", x)}
 			return out
 		}
-		o := Obs{Kind: "emit", ID: idOf(v.Path, n), Rep: v.Repeat}
-		if v.Timestamp != nil {
-			o.TS = v.Timestamp.Timestamp
-		}
-		projVal(&o, v)
-		out = append(out, o)
+		out = append(out, emitObs(v, n))
 	}
+	return out
+}
+
+// drainConcurrently: four goroutines call Next on one queue until it is
+// exhausted; returns the emitted values in a canonical order.
+func drainConcurrently(c Case, vals []*fpb.Value) []Obs {
+	q := newQueue(c, vals)
+	n := len(c.Ops)
+	var mu sync.Mutex
+	var got []Obs
+	var wg sync.WaitGroup
+	for g := 0; g < 4; g++ {
+		wg.Add(1)
+		go func() {
+			defer wg.Done()
+			defer func() {
+				if r := recover(); r != nil {
+					mu.Lock()
+					got = append(got, Obs{Kind: "end", End: "panic", Msg: fmt.Sprint(r)})
+					mu.Unlock()
+				}
+			}()
+			for k := 0; k < 200; k++ {
+				x, err := q.Next()
+				if err != nil || x == nil {
+					return
+				}
+				o := emitObs(x.(*fpb.Value), n)
+				mu.Lock()
+				got = append(got, o)
+				mu.Unlock()
+			}
+		}()
+	}
+	wg.Wait()
+	return canon(got)
+}
+
+func canon(os []Obs) []Obs {
+	out := []Obs{}
+	for _, o := range os {
+		if o.Kind == "emit" || (o.Kind == "end" && o.End == "panic") {
+			out = append(out, o)
+		}
+	}
+	key := func(o Obs) string { b, _ := json.Marshal(o); return fmt.Sprintf("%020d|%s", uint64(o.TS)+(1<<63), b) }
+	sort.Slice(out, func(i, j int) bool { return key(out[i]) < key(out[j]) })
 	return out
 }
 
@@ -383,6 +462,8 @@ type stream struct {
 	out   []Obs
 	// POLL mode: pass is the number of responses of one pass; sent is signalled
 	// after every Send; cl is closed before the last Poll so that Run returns.
+	tgt  string // subscription prefix target ("" = none)
+	bad  string // a response whose prefix target is not what the subscription asked for
 	poll bool
 	pass int
 	sent chan struct{}
@@ -420,6 +501,9 @@ func (s *stream) Recv() (*gpb.SubscribeRequest, error) {
 	s.recvs++
 	if s.recvs == 1 {
 		sl := &gpb.SubscriptionList{}
+		if s.tgt != "" {
+			sl.Prefix = &gpb.Path{Target: s.tgt}
+		}
 		if s.poll {
 			sl.Mode = gpb.SubscriptionList_POLL
 		}
@@ -457,6 +541,9 @@ func (s *stream) Send(r *gpb.SubscribeResponse) error {
 		s.out = append(s.out, Obs{Kind: "sync", B: x.SyncResponse})
 	case *gpb.SubscribeResponse_Update:
 		u := x.Update
+		if got := u.GetPrefix().GetTarget(); got != s.tgt {
+			s.bad = fmt.Sprintf("prefix target %q, subscription asked for %q", got, s.tgt)
+		}
 		switch {
 		case len(u.Delete) == 1 && len(u.Update) == 0:
 			s.out = append(s.out, Obs{Kind: "del", ID: idOf(u.Delete[0].GetElement(), s.n), TS: u.Timestamp})
@@ -499,8 +586,15 @@ func (s *stream) RecvMsg(interface{}) error    { return nil }
 
 // runClient runs the real fake-agent client on the stub stream; cfg is used
 // as it is (the same object for every generator of a case).
-func runClient(c Case, cfg *fpb.Config) (out []Obs) {
-	st := &stream{limit: c.Steps, n: len(c.Ops)}
+func runClient(c Case, cfg *fpb.Config) (out []Obs) { return runClientT(c, cfg, "") }
+
+func runClientT(c Case, cfg *fpb.Config, tgt string) (out []Obs) {
+	st := &stream{limit: c.Steps, n: len(c.Ops), tgt: tgt}
+	defer func() {
+		if st.bad != "" {
+			out = append(out, Obs{Kind: "end", End: "hang", Msg: st.bad})
+		}
+	}()
 	defer func() {
 		if r := recover(); r != nil {
 			out = append(st.out, Obs{Kind: "end", End: "panic", Msg: fmt.Sprint(r)})
@@ -542,13 +636,23 @@ func runPoll(c Case, cfg *fpb.Config, pass int) (p1, p2 []Obs) {
 
 var pollHangs int
 
+// guarded runs f under a watchdog.  After three hangs the tree evidently
+// hangs often; later cases then get one second instead of twenty, so that the
+// harness still finishes (a hang is an observation, not a harness failure).
+var hangs int
+
 func guarded(f func() []Obs) []Obs {
 	ch := make(chan []Obs, 1)
 	go func() { ch <- f() }()
+	limit := 20 * time.Second
+	if hangs >= 3 {
+		limit = time.Second
+	}
 	select {
 	case o := <-ch:
 		return o
-	case <-time.After(20 * time.Second):
+	case <-time.After(limit):
+		hangs++
 		return []Obs{{Kind: "end", End: "hang"}}
 	}
 }
@@ -592,7 +696,7 @@ func observe(c *Case) (mutated bool) {
 	for i, v := range vals {
 		before[i] = normTS(v)
 	}
-	cfg := &fpb.Config{Target: "t", Seed: c.Seed, Values: vals, DisableSync: c.NoSync}
+	cfg := &fpb.Config{Target: "t", Seed: c.Seed, Values: vals, DisableSync: c.NoSync, EnableDelay: c.Delay}
 	var seqs [][]Obs
 	switch {
 	case c.Poll && pollHangs >= 3:
@@ -613,7 +717,12 @@ func observe(c *Case) (mutated bool) {
 			c.Family = "client"
 			return observe(c)
 		}
-		pass := len(qs) - 1
+		pass := 0
+		for _, o := range qs {
+			if o.Kind == "emit" {
+				pass++
+			}
+		}
 		s0 := guarded(func() []Obs { return runClient(*c, cfg) })
 		var p1, p2 []Obs
 		r := guarded(func() []Obs { p1, p2 = runPoll(*c, cfg, pass); return nil })
@@ -631,6 +740,15 @@ func observe(c *Case) (mutated bool) {
 	default:
 		for i := 0; i < 3; i++ {
 			seqs = append(seqs, guarded(func() []Obs { return runQueue(*c, vals) }))
+		}
+		if c.Conc {
+			last := seqs[0][len(seqs[0])-1]
+			if last.Kind == "end" && last.End == "done" { // finite and error-free
+				par := guarded(func() []Obs { return drainConcurrently(*c, vals) })
+				if !sameObs(par, canon(seqs[0])) {
+					seqs = append(seqs, append(par, Obs{Kind: "end", End: "hang", Msg: "concurrent drain differs from the sequential one"}))
+				}
+			}
 		}
 	}
 	c.Obs, c.Obs2 = seqs[0], pick(seqs)
@@ -666,21 +784,36 @@ func observeFixed(c *Case) {
 	for i, o := range c.Fixed {
 		backing[i] = respOf(o, len(c.Fixed))
 	}
+	before := make([]*gpb.SubscribeResponse, len(backing))
+	for i, r := range backing {
+		before[i] = proto.Clone(r).(*gpb.SubscribeResponse)
+	}
 	cfgs := map[int]*fpb.Config{}
 	var seqs [][]Obs
-	for _, k := range c.Ks {
+	for gi, k := range c.Ks {
 		if k > len(backing) {
 			k = len(backing)
 		}
 		cfg := cfgs[k]
 		if cfg == nil {
-			cfg = &fpb.Config{Target: "t", DisableSync: c.NoSync,
+			cfg = &fpb.Config{Target: "t", DisableSync: c.NoSync, EnableDelay: c.Delay,
 				Generator: &fpb.Config_Fixed{Fixed: &fpb.FixedGenerator{Responses: backing[:k]}}}
 			cfgs[k] = cfg
 		}
 		cc := *c
 		cc.Ops = make([]Val, len(c.Fixed)) // ids of the responses
-		seqs = append(seqs, guarded(func() []Obs { return runClient(cc, cfg) }))
+		tgt := ""
+		if c.Tgt && gi%2 == 0 && gi != len(c.Ks)-1 {
+			tgt = "tg" // the LAST generator never asks for a target: nothing may linger
+		}
+		seqs = append(seqs, guarded(func() []Obs { return runClientT(cc, cfg, tgt) }))
+	}
+	for i, r := range backing {
+		if !proto.Equal(before[i], r) {
+			last := len(seqs) - 1
+			seqs[last] = append(seqs[last], Obs{Kind: "end", End: "hang", Msg: fmt.Sprintf("configured response %d was modified", i)})
+			break
+		}
 	}
 	c.Obs, c.Obs2 = seqs[0], seqs[len(seqs)-1]
 }
@@ -899,6 +1032,8 @@ func obsTerm(n *vh.Names, o Obs) string {
 		return fmt.Sprintf("ODel %d%%nat %s", o.ID, zlit(o.TS))
 	case "sync":
 		return "OSync " + vh.Bool(o.B)
+	case "latest":
+		return "OLatest " + zlit(o.TS)
 	case "end":
 		switch o.End {
 		case "done":
@@ -934,6 +1069,15 @@ func caseTerm(n *vh.Names, c Case) string {
 	if len(c.Draws) > 0 {
 		g += 60
 	}
+	late := "None"
+	if c.Late != nil {
+		cc := c
+		cc.Ops = append(append([]Val{}, c.Ops...), Val{}, *c.Late) // index n+1 = the late value
+		late = fmt.Sprintf("(Some (%d%%nat, %s))", c.LateAt, valTerm(n, cc, len(c.Ops)+1))
+		if c.Late.Seed == 0 {
+			g += need(cc, len(c.Ops)+1)
+		}
+	}
 	fixed := "None"
 	if c.Fixed != nil {
 		ks := make([]string, len(c.Ks))
@@ -945,14 +1089,14 @@ func caseTerm(n *vh.Names, c Case) string {
 		}
 		fixed = fmt.Sprintf("(Some (%s, %s))", obsList(n, c.Fixed), vh.List(ks))
 	}
-	return fmt.Sprintf("mkCase %s %s %s %s %d%%nat %s %s %s %s", vh.Bool(c.Client), vh.List(vals),
-		zs(tapeOf(c.Seed, g)), vh.Bool(c.NoSync), c.Steps, obsList(n, c.Obs), obsList(n, c.Obs2), drawsTerm(c.Draws), fixed)
+	return fmt.Sprintf("mkCase %s %s %s %s %d%%nat %s %s %s %s %s", vh.Bool(c.Client), vh.List(vals),
+		zs(tapeOf(c.Seed, g)), vh.Bool(c.NoSync), c.Steps, obsList(n, c.Obs), obsList(n, c.Obs2), drawsTerm(c.Draws), late, fixed)
 }
 
 // ---------------------------------------------------------------------------
 // generators
 
-var words = []string{"a", "b", "c", "dd", "e e", "é"}
+var words = []string{"a", "b", "c", "dd", "e e", "é", "", "*", "a/b"}
 
 func pickTS(r *vh.Rand, v *Val, base []int64) {
 	// few distinct initial timestamps so that buckets are shared
@@ -1160,7 +1304,12 @@ func invalidate(r *vh.Rand, v *Val) string {
 		}
 		return "no-options"
 	case 7: // width beyond int64
-		switch r.Intn(3) {
+		switch r.Intn(4) {
+		case 3: // the whole of int64: width 2^64 wraps to exactly 0
+			v.K, v.D, v.IMin, v.IMax, v.I, v.IDMin, v.IDMax = "int", "range", math.MinInt64, math.MaxInt64, int64(r.Intn(3))-1, 0, 0
+			if r.Chance(1, 2) { // or as the delta of a small range
+				v.IMin, v.IMax, v.I, v.IDMin, v.IDMax = -5, 5, 0, math.MinInt64, math.MaxInt64
+			}
 		case 0:
 			v.TMin, v.TMax = 0, math.MaxInt64
 		case 1:
@@ -1357,13 +1506,44 @@ func randCase(r *vh.Rand, client bool, edge bool) (Case, string) {
 		c.Ops = append(c.Ops, randVal(r, base, seeds))
 	}
 	c.Steps = 6 + r.Intn(30)
+	small := true // timestamps nanoseconds apart: real delays are harmless
+	for _, v := range c.Ops {
+		if v.T < 0 || v.T > 1000 || v.TMax > 1000 || v.TMin < 0 {
+			small = false
+		}
+	}
+	if !edge && small && r.Chance(1, 6) {
+		c.Delay = true
+	}
+	if !edge && !client && r.Chance(1, 5) { // UpdateQueue.Add between two Next calls
+		lv := randVal(r, []int64{base[0] + int64(r.Intn(12)), 300 + int64(r.Intn(3))}, seeds)
+		c.Late, c.LateAt = &lv, r.Intn(6)
+		if c.Delay && lv.TMax > 1000 {
+			c.Delay = false
+		}
+	}
 	what := ""
 	if edge && n > 0 {
 		c.Family += "-edge"
 		if r.Chance(1, 2) {
 			what = invalidate(r, &c.Ops[r.Intn(n)])
 		} else {
-			what = boundary(r, &c.Ops[r.Intn(n)])
+			bi := r.Intn(n)
+			what = boundary(r, &c.Ops[bi])
+			if what == "b:timestamp" && n >= 2 && r.Chance(1, 2) {
+				// a second value at the opposite end of int64: comparisons must not subtract
+				oi := (bi + 1 + r.Intn(n-1)) % n
+				c.Ops[oi].NoTS = false
+				if c.Ops[bi].T < 0 {
+					c.Ops[oi].T = math.MaxInt64 - int64(r.Intn(3))
+				} else {
+					c.Ops[oi].T = math.MinInt64 + int64(r.Intn(3))
+				}
+				if r.Chance(2, 3) {
+					c.Ops[oi].Repeat, c.Ops[bi].Repeat = 1, 1
+				}
+				what = "b:timestamp-pair"
+			}
 			c.Steps = 4 + r.Intn(8)
 		}
 	}
@@ -1378,6 +1558,44 @@ func randPoll(r *vh.Rand) Case {
 		c.Ops[i].Repeat = int32(1 + r.Intn(3))
 	}
 	c.Steps = 24
+	return c
+}
+
+// randConc: a finite configuration, drained sequentially and by four goroutines.
+func randConc(r *vh.Rand) Case {
+	c, _ := randCase(r, false, false)
+	c.Family, c.Conc, c.Late = "conc", true, nil
+	for i := range c.Ops {
+		c.Ops[i].Repeat = int32(1 + r.Intn(4))
+	}
+	c.Steps = 40
+	return c
+}
+
+// randMany: 8..20 values (binary search over many buckets, long shared buckets).
+func randMany(r *vh.Rand) Case {
+	c, _ := randCase(r, r.Chance(1, 4), false)
+	c.Family, c.Late, c.Ops = "many", nil, nil
+	n := 8 + r.Intn(13)
+	spread := int64(1 + r.Intn(4))
+	for i := 0; i < n; i++ {
+		v := Val{K: "int", I: int64(i), Repeat: []int32{0, 1, 2, 3}[r.Intn(4)]}
+		v.T = int64(r.Intn(n)) * spread
+		if r.Chance(1, 4) {
+			v.T = int64(r.Intn(3))
+		}
+		v.TMin = int64(r.Intn(3))
+		v.TMax = v.TMin + int64(r.Intn(4))
+		if r.Chance(1, 3) {
+			v.K, v.B = "bool", true
+		}
+		if r.Chance(1, 5) {
+			v.Seed = pickSeed(r)
+		}
+		c.Ops = append(c.Ops, v)
+	}
+	c.Delay = false
+	c.Steps = 20 + r.Intn(25)
 	return c
 }
 
@@ -1410,6 +1628,8 @@ func randFixed(r *vh.Rand) Case {
 		c.Ks = []int{k, n, k}
 	}
 	c.Steps = 2 + r.Intn(9)
+	c.Tgt = r.Chance(1, 2)
+	c.Delay = r.Chance(1, 4)
 	return c
 }
 
@@ -1511,7 +1731,7 @@ func main() {
 	if devnull != nil {
 		os.Stderr = devnull // glog of fake/gnmi (log.Errorf on every stream end)
 	}
-	meta := vh.NewMeta("corpus cases; seeded random configurations of 0..5 values of every kind (int/uint/double/string/string-list/bool/sync/delete) with range, list (random or rotating) or no distribution, value deltas, repeat in {-1,0,1,2,3,5}, shared and distinct small initial timestamps, timestamp deltas 0..6 (occasionally up to 2^45), global and per-value seeds (shared, equal, distinct), with and without the injected sync; each run for 6..35 steps through queue.New/Add/Next and through fake/gnmi Client.Run; global and per-value seeds are drawn from boundary seeds (-1, -7919, MinInt64, MaxInt64, 1, 2^31-1, 2^31, ...), random negative, random positive and small ones; an 'edge' family adds one documented error shape or one sign/zero/one/extreme variant of a numeric field (timestamp, ts deltas, repeat, seed, int/uint/double range bounds, value, value deltas, list length 0/1/2) per case; a 'poll' family runs finite configurations through one Client in POLL mode (two passes from the same configuration object, compared with each other and with a STREAM run); every generator of a case is built from the SAME configuration object (three in a row in the queue/client families) and the configuration is compared before/after; a 'fixed' family drives FixedQueue through Client.Run with generators built from prefixes of one backing array ([n,n,n], [n,k,n], [k,k,k], [k,n,k]); explicit sync values 0..2 occur with DisableSync=false at any position; a 'draws' family calls Int63n/Intn/Float64 of a real rand.Rand directly with moduli that make the rejection loops run (validation of the math/rand port). distinct = distinct configuration+seed+steps; non-trivial = at least 3 values emitted")
+	meta := vh.NewMeta("corpus cases; seeded random configurations of 0..5 values of every kind (int/uint/double/string/string-list/bool/sync/delete) with range, list (random or rotating) or no distribution, value deltas, repeat in {-1,0,1,2,3,5}, shared and distinct small initial timestamps, timestamp deltas 0..6 (occasionally up to 2^45), global and per-value seeds (shared, equal, distinct), with and without the injected sync; each run for 6..35 steps through queue.New/Add/Next and through fake/gnmi Client.Run; global and per-value seeds are drawn from boundary seeds (-1, -7919, MinInt64, MaxInt64, 1, 2^31-1, 2^31, ...), random negative, random positive and small ones; an 'edge' family adds one documented error shape or one sign/zero/one/extreme variant of a numeric field (timestamp, ts deltas, repeat, seed, int/uint/double range bounds, value, value deltas, list length 0/1/2) per case; a 'poll' family runs finite configurations through one Client in POLL mode (two passes from the same configuration object, compared with each other and with a STREAM run); every generator of a case is built from the SAME configuration object (three in a row in the queue/client families) and the configuration is compared before/after; a 'fixed' family drives FixedQueue through Client.Run with generators built from prefixes of one backing array ([n,n,n], [n,k,n], [k,k,k], [k,n,k]); explicit sync values 0..2 occur with DisableSync=false at any position; the queue family also reads Latest() after the run, calls Next twice more after exhaustion and, in a fifth of the cases, Adds one more value between two Next calls; a sixth of the small-timestamp cases run with delay/enable_delay on; a 'many' family has 8..20 values (long bucket lists); a 'conc' family drains a finite configuration with four goroutines and compares the multiset with the sequential run; fixed generators alternately subscribe with a prefix target and the configured responses are compared before/after; a 'draws' family calls Int63n/Intn/Float64 of a real rand.Rand directly with moduli that make the rejection loops run (validation of the math/rand port). distinct = distinct configuration+seed+steps; non-trivial = at least 3 values emitted")
 	e := &emitter{dir: o.Out, cf: vh.NewCaseFile(), meta: meta, limit: 400}
 
 	if o.Replay != "" {
@@ -1544,9 +1764,11 @@ func main() {
 	}
 
 	r := vh.NewRand(o.Seed)
-	nq, nc, ne, nd, np, nf := 1400, 800, 900, 150, 250, 250
+	nq, nc, ne, nd, np, nf := 1300, 700, 800, 120, 200, 250
+	nm, nx := 150, 150
 	if o.Thorough() {
 		nq, nc, ne, nd, np, nf = 18000, 8000, 12000, 3000, 3000, 3000
+		nm, nx = 2000, 2000
 	}
 	rq, rc, re, rd, rp, rf := r.Fork(), r.Fork(), r.Fork(), r.Fork(), r.Fork(), r.Fork()
 	for i := 0; i < np; i++ {
@@ -1554,6 +1776,13 @@ func main() {
 	}
 	for i := 0; i < nf; i++ {
 		e.add(randFixed(rf), "")
+	}
+	rm, rx := r.Fork(), r.Fork()
+	for i := 0; i < nm; i++ {
+		e.add(randMany(rm), "")
+	}
+	for i := 0; i < nx; i++ {
+		e.add(randConc(rx), "")
 	}
 	for i := 0; i < nd; i++ {
 		e.add(randDraws(rd), "")
